@@ -34,7 +34,19 @@ def gen_steps(r, nops, md_prob=0.10, cut_opts=(True, False, "copy")):
         nonlocal nid
         i = nid; nid += 1
         names[i] = f"{'r' if kind == 'root' else 'n'}{i}"
-        steps.append({"do": kind, "name": names[i]})
+        if kind == "node" and r.random() < 0.3:
+            # a name DERIVED from another node's name: it is a proper prefix of this one (path arithmetic on strings must
+            # respect the '/' boundary); names stay distinct
+            others = [v for k, v in names.items() if k != i and not isroot.get(k, False)]
+            if others:
+                cand = r.choice(others) + r.choice(["_2", "_fit", "x", "b"])
+                if cand not in names.values():
+                    names[i] = cand
+        st = {"do": kind, "name": names[i]}
+        if kind == "node":
+            # every built-in class, incl. containers that are EMPTY (len() == 0, i.e. falsy objects)
+            st["cls"] = r.choice(["Node", "Node", "Node", "PointList0", "PointList0", "PointList", "Array", "PointListArray"])
+        steps.append(st)
         parent[i] = None; isroot[i] = kind == "root"; rooted[i] = kind == "root"
         return i
 
@@ -57,7 +69,7 @@ def gen_steps(r, nops, md_prob=0.10, cut_opts=(True, False, "copy")):
                     parent[i] = p; rooted[i] = True
         elif c < 0.22 + md_prob:
             x = r.choice([i for i in ids if isroot[i]] or ids)
-            steps.append({"do": "md", "node": x, "name": r.choice(["m", "cal", "only" + str(x), "shared"]), "content": r.randrange(5)})
+            steps.append({"do": "md", "node": x, "name": r.choice(["m", "cal", "only" + str(x), "shared", "", "m_copy", "_copy"]), "content": r.randrange(5)})
         elif c < 0.62:
             # graft scion under receiver (receiver not in scion's subtree, both rooted)
             sc = r.choice(ids)
